@@ -321,9 +321,18 @@ def run(res, ctx):
         runner.run_harness(res, SRC, "asan", tier, args=args, deadline=5400, timeout=7200, shards=16)
     disasm_leg(res, _acc_paths(tier), runner.OUT)
     _fold(res)
+    # leg 2: calls that fail because memory runs out (heap through ld --wrap, arena through hook H1) x handler kinds
+    runner.run_harness(res, SRC_FAULT, "asan", tier, deadline=600, timeout=1200, shards=8, **KW_FAULT)
+
+
+SRC_FAULT = "harness/c14_faultstate.cpp"
+KW_FAULT = dict(extra_ld=["-Wl,--wrap=malloc,--wrap=realloc,--wrap=calloc"])
 
 
 def replay(res, path, ctx):
+    if "harness=c14_faultstate" in open(path).read():
+        runner.run_harness(res, SRC_FAULT, "asan", ctx["tier"], replay=path, timeout=300, **KW_FAULT)
+        return
     tier = ctx["tier"]
     acc = os.path.join(runner.OUT, "%s-%s-0.json.acc" % (TAG, tier))
     runner.run_harness(res, SRC, "asan", tier, replay=path, timeout=300)
